@@ -609,11 +609,13 @@ fn delay_retune(mode: Mode, rng: &mut Rng, rep: &mut Report) -> Vec<(String, Str
     let sizes = [0usize, 1, 2, 5, 64, 700, 3000];
     for _ in 0..40 {
         let d0 = *rng.pick(&sizes);
-        let d1 = *rng.pick(&sizes);
+        // one to three changes in a row, all at the same (quiescent) point
+        let changes: Vec<usize> = (0..rng.range(1, 3)).map(|_| *rng.pick(&sizes)).collect();
+        let d1 = *changes.last().unwrap();
         let before_start = rng.chance(1, 2);
         let n1 = if before_start { 0 } else { *rng.pick(&[0usize, 1, 9, 800]) };
         let n2 = *rng.pick(&[0usize, 1, 3, 40, 900, 4000]);
-        let replay = json!({"part": "delay-retune", "delay": d0, "new_delay": d1, "before_first_call": before_start, "fed_before": n1, "fed_after": n2});
+        let replay = json!({"part": "delay-retune", "delay": d0, "new_delays": changes.clone(), "before_first_call": before_start, "fed_before": n1, "fed_after": n2});
         rep.count("delay_retune_cases", 1);
         let data: Vec<u32> = (0..(n1 + n2) as u32).map(|i| i + 1).collect();
         // model
@@ -624,17 +626,22 @@ fn delay_retune(mode: Mode, rng: &mut Rng, rep: &mut Report) -> Vec<(String, Str
             owed = 0;
             want.extend_from_slice(&data[..n1]);
         }
-        if d1 > d0 {
-            let k = d1 - d0;
-            let c = std::cmp::min(skip, k);
-            skip -= c;
-            owed += k - c;
-        } else {
-            let k = d0 - d1;
-            let c = std::cmp::min(owed, k);
-            owed -= c;
-            skip += k - c;
+        let mut cur = d0;
+        for &d in &changes {
+            if d > cur {
+                let k = d - cur;
+                let c = std::cmp::min(skip, k);
+                skip -= c;
+                owed += k - c;
+            } else {
+                let k = cur - d;
+                let c = std::cmp::min(owed, k);
+                owed -= c;
+                skip += k - c;
+            }
+            cur = d;
         }
+        let _ = d1;
         want.extend(std::iter::repeat(0).take(owed));
         want.extend(data[n1..].iter().skip(skip));
         let res = catch(|| -> Result<(Vec<u32>, Option<String>), String> {
@@ -682,7 +689,9 @@ fn delay_retune(mode: Mode, rng: &mut Rng, rep: &mut Report) -> Vec<(String, Str
                 feed(&w, &data[..n1]);
                 run(&mut blk, &mut got, &mut spin)?;
             }
-            blk.set_delay(d1);
+            for &d in &changes {
+                blk.set_delay(d);
+            }
             feed(&w, &data[n1..]);
             run(&mut blk, &mut got, &mut spin)?;
             drop(w);
